@@ -25,7 +25,10 @@ RULE = (
     "(<=14 quick / <=40 thorough steps) over {construct a stand-alone object of a slot's target type in the holder's "
     "buffer / another buffer of the context / a buffer of another context, bind-to-existing (same-buffer object, also "
     "an object nested inside another one), bind-to-value (python data; (typename, data) for unions), bind-to-foreign "
-    "object, bind-to-null, write-through-ref, write-through-original, grow / allocate-until-growth}, every access "
+    "object, bind-to-look-alike (a same-buffer object of another class that converts: other struct class with the same fields, "
+    "static array for a dynamic-array target, same-named array class with another axis order), bind-to-null (also through a "
+    "whole-struct update naming only that field), a stand-alone union-reference object bound to a same-buffer object (resolved "
+    "twice after every later step), write-through-ref, write-through-original, grow / allocate-until-growth}, every access "
     "through handles, rebuilt views or a mix. Oracle after EVERY step: full re-read of the holder and of every "
     "stand-alone object equals the shared-value model (alias => writes through either side visible through both; copy "
     "=> later writes to the source do not show); an aliased slot reads back a handle with the offset and buffer of the "
